@@ -97,7 +97,7 @@ def check_from_iter(ctx, lib):
         t = sym.Evaluator(lib, extra_identity=streams.GOAL_CAST).fn_term(fn)
         key = fn["npath"]
         site = site_of(fn)
-        fors = [s for s in sym.subterms(t) if s[0] == "for"]
+        fors = list(dict.fromkeys(s for s in sym.subterms(t) if s[0] == "for"))
         if not ctx.expect(len(fors) == 1, R, key + "|shape", site, "expected one fold loop, found %d" % len(fors)):
             continue
         f = fors[0]
@@ -114,6 +114,7 @@ def check_from_iter(ctx, lib):
         ctx.expect(ok, R, key + "|conjoins-each", site, "each iteration must be acc = %s(item, acc) (either operand order) with nothing skipped; found %s" % (new, show(f[3], maxdepth=5)[:200]))
         if acc is not None:
             inits = [st[2] for s in sym.subterms(t) if s[0] == "seq" for st in s[1] if st[0] == "let" and st[1][0] == "pbind" and st[1][1] == acc[1]]
+            inits = list(dict.fromkeys(inits))
             oki = len(inits) == 1 and (any(suffix_match(c[1], "succeed") for c in sym.calls(inits[0])) or any(suffix_match(c[1], "Succeed") for c in sym.ctors(inits[0])))
             ctx.expect(oki, R, key + "|unit-is-succeed", site, "the empty conjunction must be `succeed` (an empty collection succeeds exactly once); starts as %s" % (show(inits[0], maxdepth=4) if inits else "?"))
             res = tables.result(t)
